@@ -39,7 +39,7 @@ func runC13(x *mc.X) {
 	placement := mc.Pick(x, "sie.placement", []string{"stored", "request", "both", "both(stored=0)", "both(request=0)", "neither", "error-reply-only"})
 	N := mc.Pick(x, "sie.N", []int64{0, 5, 100, 1 << 31, 10000000000})
 	// delta-seconds is 1*DIGIT: leading zeros are legal; a value beyond 2^31 acts as 2^31
-	nspell := mc.Pick(x, "sie.N-spelling", []string{"plain", "eleven digits"})
+	nspell := mc.Pick(x, "sie.N-spelling", []string{"plain", "eleven digits", "capitalised directive name"})
 	fmtN := func(n int64) string {
 		if nspell == "eleven digits" {
 			return fmt.Sprintf("%011d", n)
@@ -49,6 +49,10 @@ func runC13(x *mc.X) {
 	if nspell != "plain" && N != 5 && N != 100 {
 		x.Skip()
 	}
+	sieName := "stale-if-error="
+	if nspell == "capitalised directive name" {
+		sieName = "Stale-If-Error="
+	}
 	stIdx := x.Choose("staleness", 4)
 	failure := mc.Pick(x, "failure", c13Failures(x.Tier()))
 	blocker := mc.Pick(x, "blocker", []string{"", "must-revalidate", "stored-no-cache", "request-no-cache"})
@@ -57,15 +61,15 @@ func runC13(x *mc.X) {
 	storedSIE, reqSIE := "", ""
 	switch placement {
 	case "stored":
-		storedSIE = "stale-if-error=" + fmtN(N)
+		storedSIE = sieName + fmtN(N)
 	case "request":
-		reqSIE = "stale-if-error=" + fmtN(N)
+		reqSIE = sieName + fmtN(N)
 	case "both":
-		storedSIE, reqSIE = "stale-if-error="+fmtN(N), "stale-if-error="+fmtN(N)
+		storedSIE, reqSIE = sieName+fmtN(N), sieName+fmtN(N)
 	case "both(stored=0)": // the larger window applies
-		storedSIE, reqSIE = "stale-if-error=0", "stale-if-error="+fmtN(N)
+		storedSIE, reqSIE = "stale-if-error=0", sieName+fmtN(N)
 	case "both(request=0)":
-		storedSIE, reqSIE = "stale-if-error="+fmtN(N), "stale-if-error=0"
+		storedSIE, reqSIE = sieName+fmtN(N), "stale-if-error=0"
 	}
 
 	if N > 1<<31 {
@@ -81,7 +85,7 @@ func runC13(x *mc.X) {
 	}
 	w := world.New(world.Opt{Logger: logger})
 	defer w.Close()
-	sie := "stale-if-error=" + fmtN(N)
+	sie := sieName + fmtN(N)
 	storedCC := cc("max-age=10", storedSIE, ifs(blocker == "must-revalidate", "must-revalidate"), ifs(blocker == "stored-no-cache", "no-cache"))
 	h := H("Cache-Control", storedCC)
 	if withETag {
